@@ -316,7 +316,9 @@ def _reset_globals(seed):
     import nessai.utils.multiprocessing as nmp
     from nessai import config
 
-    config.livepoints.reset()
+    fresh = type(config.livepoints)()
+    vars(config.livepoints).clear()
+    vars(config.livepoints).update(vars(fresh))
     config.general.eps = 1e-8
     nmp._model = None
     np.random.seed(seed % (2**32))
